@@ -529,8 +529,20 @@ namespace chaiscript {
         } else if ((loc & static_cast<uint_fast32_t>(Loc::is_local)) != 0u) {
           auto &stack = get_stack_data(t_holder);
 
-          return stack[stack.size() - 1 - ((loc & static_cast<uint_fast32_t>(Loc::stack_mask)) >> 16)].at_index(
-              loc & static_cast<uint_fast32_t>(Loc::loc_mask));
+          // The cached position is only a hint: the same node can be evaluated again under a different
+          // arrangement of scopes and variables, so the slot must exist and must hold this very name.
+          const auto depth = (loc & static_cast<uint_fast32_t>(Loc::stack_mask)) >> 16;
+          const auto idx = loc & static_cast<uint_fast32_t>(Loc::loc_mask);
+          if (depth < stack.size()) {
+            auto &scope = stack[stack.size() - 1 - depth];
+            if (idx < scope.size() && (scope.begin() + static_cast<std::ptrdiff_t>(idx))->first == name) {
+              return scope.at_index(idx);
+            }
+          }
+
+          // stale hint: resolve the name again from scratch
+          t_loc = 0;
+          return get_object(name, t_loc, t_holder);
         }
 
         // Is the value we are looking for a global or function?
